@@ -89,6 +89,9 @@ class Tr:
     def __init__(self):
         self.defs = []            # emitted Definitions, in dependency order
         self.tmp = 0
+        self.cse = {}
+        self.genexps = {}
+        self.inl = 0
         self.nested = {}          # name -> (FunctionDef, outer env) not yet instantiated
         self.instantiated = {}    # name -> (coq name, extra param names, ret type)
         self.module_funcs = {}    # module-level python functions translated on demand
@@ -207,6 +210,13 @@ class Tr:
             if isinstance(op, ast.NotIn):
                 val = f'(negb {val})'
             return binds, val, 'bool'
+        # `len(x) > 0` is the truthiness of x
+        if (isinstance(op, ast.Gt) and isinstance(rhs, ast.Constant) and rhs.value == 0 and not isinstance(rhs.value, bool)
+                and isinstance(n.left, ast.Call) and isinstance(n.left.func, ast.Name) and n.left.func.id == 'len' and len(n.left.args) == 1):
+            b, v, t = self.E(n.left.args[0], env)
+            if lst(t) is None:
+                fail('len(..) > 0 of a non-list', n)
+            return b, f'(py_nonempty {v})', 'bool'
         bl, vl, tl = self.E(n.left, env)
         br, vr, tr = self.E(rhs, env)
         if tl != tr:
@@ -223,6 +233,10 @@ class Tr:
     def is_alias_call(self, n, name):
         return isinstance(n, ast.Call) and isinstance(n.func, ast.Name) and n.func.id == name and not n.args and not n.keywords
 
+    def is_interp(self, n):
+        """the interpreter the instructions are sent to: `interpreter()` (alias lambda) or the parameter `interp` itself"""
+        return self.is_alias_call(n, 'interpreter') or (isinstance(n, ast.Name) and n.id == 'interp')
+
     def call(self, n, env):
         if n.keywords:
             fail('keyword arguments', n)
@@ -231,7 +245,7 @@ class Tr:
         if isinstance(f, ast.Call) and isinstance(f.func, ast.Attribute) and f.func.attr == 'load_axiom':
             bo, vo, to = self.E(f.func.value, env)
             self.need(to, 'pexp', n)
-            if len(f.args) != 1 or len(n.args) != 1 or not self.is_alias_call(n.args[0], 'interpreter'):
+            if len(f.args) != 1 or len(n.args) != 1 or not self.is_interp(n.args[0]):
                 fail('load_axiom call shape', n)
             bp, vp, tp = self.E(f.args[0], env)
             self.need(tp, 'pat', n)
@@ -280,13 +294,14 @@ class Tr:
                     vals.append(v)
                     tys.append(t)
                 cname, extra, rty = self.instantiate(name, tys, n)
+                self.cse = {}
                 tmp = self.fresh()
                 args = ' '.join(extra + vals)
                 return binds + [(tmp, f'{cname} {args}'.strip())], tmp, rty
             fail(f'call of {name}', n)
         if isinstance(f, ast.Attribute):
             recv, meth = f.value, f.attr
-            if self.is_alias_call(recv, 'interpreter'):
+            if self.is_interp(recv):
                 return self.interp_call(meth, n, env)
             if isinstance(recv, ast.Name) and recv.id == 'converter':
                 table = {'resolve_metavar': ('var', 'cv_resolve_metavar', 'pat'),
@@ -308,6 +323,11 @@ class Tr:
         fail('call form not in the translated subset', n)
 
     def interp_call(self, meth, n, env):
+        r = self.interp_call1(meth, n, env)
+        self.cse = {}
+        return r
+
+    def interp_call1(self, meth, n, env):
         args = []
         binds = []
         for a in n.args:
@@ -343,6 +363,15 @@ class Tr:
         fail(f'interpreter().{meth} is not in the translated subset', n)
 
     def subscript(self, n, env):
+        # a read repeated inside one statement (no instruction is sent in between) is the same value
+        key = ast.dump(n)
+        if key in self.cse:
+            return [], self.cse[key][0], self.cse[key][1]
+        b, v, t = self.subscript1(n, env)
+        self.cse[key] = (v, t)
+        return b, v, t
+
+    def subscript1(self, n, env):
         idx = n.slice
         if self.is_alias_call(n.value, 'stack'):
             b, v, t = self.E(idx, env)
@@ -376,6 +405,223 @@ class Tr:
             fail(f'attribute .{n.attr} of {t!r}', n)
         tpl, rty = table[(t, n.attr)]
         return b, '(' + tpl.format(v) + ')', rty
+
+
+    # ------------------------------------------------------------------ canonical forms
+    def is_helper(self, name):
+        return name in self.nested or name in self.module_funcs
+
+    def helper_def(self, name):
+        return self.nested[name][0] if name in self.nested else self.module_funcs[name]
+
+    def inline_call(self, call, targets, node):
+        """statement-level call of a local / module helper = its body with the parameters substituted;
+        `targets = f(args)` needs a body that ends in its only `return`.  Returns a statement list or None."""
+        name = call.func.id
+        fn = self.helper_def(name)
+        if any(isinstance(x, ast.Call) and isinstance(x.func, ast.Name) and x.func.id == name for x in ast.walk(fn)):
+            return None                     # recursive: stays a function
+        if call.keywords or len(call.args) != len(fn.args.args) or fn.args.vararg or fn.args.kwarg or fn.args.defaults:
+            return None
+        body = [b for b in fn.body if not (isinstance(b, ast.Expr) and isinstance(b.value, ast.Constant))]
+        rets = [x for x in ast.walk(fn) if isinstance(x, ast.Return)]
+        nested_defs = [x for x in ast.walk(fn) if isinstance(x, (ast.FunctionDef, ast.Lambda)) and x is not fn]
+        if nested_defs:
+            return None
+        if targets is None:
+            if rets:
+                return None
+            ret_expr = None
+        else:
+            if len(rets) != 1 or not body or body[-1] is not rets[0] or rets[0].value is None:
+                return None
+            ret_expr = rets[0].value
+            body = body[:-1]
+        self.inl += 1
+        params = [a.arg for a in fn.args.args]
+        local = [x for x in self.assigned(body) if x not in params]
+        for x in ast.walk(fn):
+            if isinstance(x, ast.For):
+                for t in ast.walk(x.target):
+                    if isinstance(t, ast.Name) and t.id not in local and t.id not in params and t.id != '_':
+                        local.append(t.id)
+        ren = {x: f'{x}__{name}{self.inl}' for x in local}
+        pre = []
+        for pname, arg in zip(params, call.args):
+            if isinstance(arg, ast.Name):
+                ren[pname] = arg.id
+            else:
+                ren[pname] = f'{pname}__{name}{self.inl}'
+                pre.append(ast.Assign(targets=[ast.Name(id=ren[pname], ctx=ast.Store())], value=arg, lineno=node.lineno))
+
+        class Ren(ast.NodeTransformer):
+            def visit_Name(self, n):
+                if n.id in ren:
+                    return ast.copy_location(ast.Name(id=ren[n.id], ctx=n.ctx), n)
+                return n
+        import copy
+        out = pre + [Ren().visit(copy.deepcopy(b)) for b in body]
+        if ret_expr is not None:
+            out.append(ast.Assign(targets=targets, value=Ren().visit(copy.deepcopy(ret_expr)), lineno=node.lineno))
+        for o in out:
+            ast.fix_missing_locations(o)
+        return out
+
+    def eq_const_test(self, s):
+        """`if NAME == <constant>:` without else -> (NAME, constant) """
+        if (isinstance(s, ast.If) and not s.orelse and isinstance(s.test, ast.Compare) and len(s.test.ops) == 1
+                and isinstance(s.test.ops[0], ast.Eq) and isinstance(s.test.left, ast.Name)
+                and isinstance(s.test.comparators[0], ast.Constant)):
+            return s.test.left.id, s.test.comparators[0].value
+        return None
+
+    def canon(self, stmts, env):
+        """rewrite the head of a statement list into the canonical idiom; equivalent idioms get the same shape"""
+        import copy
+        changed = True
+        while changed and stmts:
+            changed = False
+            s, rest = stmts[0], stmts[1:]
+            ln = getattr(s, 'lineno', 0)
+
+            def mk(node):
+                ast.fix_missing_locations(ast.copy_location(node, s))
+                return node
+            # match NAME: case 'a': .. case 'b': ..   ==   if NAME == 'a': .. elif NAME == 'b': ..
+            if isinstance(s, ast.Match):
+                if not isinstance(s.subject, ast.Name):
+                    fail('match on a non-variable', s)
+                chain = []
+                for c in reversed(s.cases):
+                    if c.guard is not None:
+                        fail('guarded case', s)
+                    if isinstance(c.pattern, ast.MatchValue) and isinstance(c.pattern.value, ast.Constant):
+                        test = ast.Compare(left=copy.deepcopy(s.subject), ops=[ast.Eq()], comparators=[c.pattern.value])
+                        chain = [mk(ast.If(test=test, body=c.body, orelse=chain))]
+                    elif isinstance(c.pattern, ast.MatchAs) and c.pattern.pattern is None and c.pattern.name is None and not chain:
+                        chain = c.body
+                    else:
+                        fail('case pattern', s)
+                stmts, changed = chain + rest, True
+                continue
+            # consecutive `if NAME == c_i:` (distinct constants, NAME not re-assigned, no early exit) == an if/elif chain
+            h = self.eq_const_test(s)
+            if h is not None and rest and self.eq_const_test(rest[0]) is not None:
+                run = [s]
+                for nx in rest:
+                    hn = self.eq_const_test(nx)
+                    if hn is None or hn[0] != h[0]:
+                        break
+                    run.append(nx)
+                consts = [self.eq_const_test(x)[1] for x in run]
+                ok = len(set(map(repr, consts))) == len(consts) and all(
+                    h[0] not in self.assigned(x.body) and not self.diverts(x.body) for x in run)
+                if ok and len(run) > 1:
+                    chain = []
+                    for x in reversed(run):
+                        chain = [mk(ast.If(test=x.test, body=x.body, orelse=chain))]
+                    stmts, changed = chain + rest[len(run) - 1:], True
+                    continue
+            if isinstance(s, (ast.Assign, ast.AnnAssign)) and s.value is not None:
+                target = s.targets[0] if isinstance(s, ast.Assign) and len(s.targets) == 1 else (s.target if isinstance(s, ast.AnnAssign) else None)
+                v = s.value
+                # x = (generator)  : remembered, consumed by the next statement
+                if isinstance(target, ast.Name) and isinstance(v, ast.GeneratorExp):
+                    self.genexps[target.id] = (v, len(rest))
+                    stmts, changed = rest, True
+                    continue
+                # x = [E for v in it]   ==   x = []; for v in it: x.append(E)
+                if isinstance(target, ast.Name) and isinstance(v, ast.ListComp) and len(v.generators) == 1 and not v.generators[0].is_async:
+                    g = v.generators[0]
+                    app = mk(ast.Expr(value=ast.Call(func=ast.Attribute(value=ast.Name(id=target.id, ctx=ast.Load()), attr='append', ctx=ast.Load()),
+                                                     args=[v.elt], keywords=[])))
+                    body = [app]
+                    for cond in reversed(g.ifs):
+                        body = [mk(ast.If(test=cond, body=body, orelse=[]))]
+                    init = mk(ast.Assign(targets=[ast.Name(id=target.id, ctx=ast.Store())], value=ast.List(elts=[], ctx=ast.Load())))
+                    loop = mk(ast.For(target=g.target, iter=g.iter, body=body, orelse=[]))
+                    stmts, changed = [init, loop] + rest, True
+                    continue
+                # d = dict(enumerate(G, start=k))   ==   d = {}; n = k; for .. in ..: if ..: d[n] = elt; n += 1
+                if (isinstance(target, ast.Name) and isinstance(v, ast.Call) and isinstance(v.func, ast.Name) and v.func.id == 'dict'
+                        and len(v.args) == 1 and not v.keywords and isinstance(v.args[0], ast.Call) and isinstance(v.args[0].func, ast.Name)
+                        and v.args[0].func.id == 'enumerate'):
+                    en = v.args[0]
+                    start = ast.Constant(value=0)
+                    for kw in en.keywords:
+                        if kw.arg != 'start':
+                            fail('enumerate keyword', s)
+                        start = kw.value
+                    if len(en.args) == 2:
+                        start = en.args[1]
+                    src = en.args[0]
+                    if isinstance(src, ast.Name) and src.id in self.genexps:
+                        gen, at = self.genexps.pop(src.id)
+                        if at != len(stmts):
+                            fail('generator not consumed by the statement that follows its definition', s)
+                        src = gen
+                    if not (isinstance(src, ast.GeneratorExp) and len(src.generators) == 1) or not isinstance(s, ast.AnnAssign):
+                        fail('dict(enumerate(..)) form', s)
+                    g = src.generators[0]
+                    ctr = target.id + '_next'
+                    body = [mk(ast.Assign(targets=[ast.Subscript(value=ast.Name(id=target.id, ctx=ast.Load()), slice=ast.Name(id=ctr, ctx=ast.Load()), ctx=ast.Store())],
+                                          value=src.elt)),
+                            mk(ast.AugAssign(target=ast.Name(id=ctr, ctx=ast.Store()), op=ast.Add(), value=ast.Constant(value=1)))]
+                    if g.ifs:
+                        test = g.ifs[0] if len(g.ifs) == 1 else ast.BoolOp(op=ast.And(), values=list(g.ifs))
+                        body = [mk(ast.If(test=test, body=body, orelse=[]))]
+                    init = mk(ast.AnnAssign(target=ast.Name(id=target.id, ctx=ast.Store()), annotation=s.annotation, value=ast.Dict(keys=[], values=[]), simple=1))
+                    cinit = mk(ast.Assign(targets=[ast.Name(id=ctr, ctx=ast.Store())], value=start))
+                    loop = mk(ast.For(target=g.target, iter=g.iter, body=body, orelse=[]))
+                    stmts, changed = [init, cinit, loop] + rest, True
+                    continue
+                # targets = helper(args)
+                if isinstance(v, ast.Call) and isinstance(v.func, ast.Name) and self.is_helper(v.func.id) and isinstance(s, ast.Assign):
+                    inl = self.inline_call(v, s.targets, s)
+                    if inl is not None:
+                        stmts, changed = inl + rest, True
+                        continue
+            if isinstance(s, ast.Expr) and isinstance(s.value, ast.Call):
+                c = s.value
+                # helper(args)
+                if isinstance(c.func, ast.Name) and self.is_helper(c.func.id):
+                    inl = self.inline_call(c, None, s)
+                    if inl is not None:
+                        stmts, changed = inl + rest, True
+                        continue
+                # x.append(A if c else B)   ==   if c: x.append(A) else: x.append(B)
+                if (isinstance(c.func, ast.Attribute) and c.func.attr == 'append' and len(c.args) == 1 and isinstance(c.args[0], ast.IfExp)):
+                    ie = c.args[0]
+
+                    def app(e):
+                        return mk(ast.Expr(value=ast.Call(func=copy.deepcopy(c.func), args=[e], keywords=[])))
+                    stmts, changed = [mk(ast.If(test=ie.test, body=[app(ie.body)], orelse=[app(ie.orelse)]))] + rest, True
+                    continue
+            if isinstance(s, ast.For) and isinstance(s.iter, ast.Call) and isinstance(s.iter.func, ast.Name) and not s.orelse:
+                it = s.iter
+                # for v in map(f, xs)   ==   for x in xs: v = f(x)
+                if it.func.id == 'map' and len(it.args) == 2 and not it.keywords:
+                    tmp = 'item__map%d' % ln
+                    bind = mk(ast.Assign(targets=[s.target], value=ast.Call(func=it.args[0], args=[ast.Name(id=tmp, ctx=ast.Load())], keywords=[])))
+                    stmts, changed = [mk(ast.For(target=ast.Name(id=tmp, ctx=ast.Store()), iter=it.args[1], body=[bind] + s.body, orelse=[]))] + rest, True
+                    continue
+                # for i, v in enumerate(xs, start=k)   ==   i = k; for v in xs: ..; i += 1     (no `continue` in the body)
+                if it.func.id == 'enumerate' and isinstance(s.target, ast.Tuple) and len(s.target.elts) == 2 and isinstance(s.target.elts[0], ast.Name):
+                    start = ast.Constant(value=0)
+                    for kw in it.keywords:
+                        if kw.arg != 'start':
+                            fail('enumerate keyword', s)
+                        start = kw.value
+                    if len(it.args) == 2:
+                        start = it.args[1]
+                    if any(isinstance(x, ast.Continue) for b in s.body for x in ast.walk(b)):
+                        fail('continue inside an enumerate loop', s)
+                    i = s.target.elts[0].id
+                    init = mk(ast.Assign(targets=[ast.Name(id=i, ctx=ast.Store())], value=start))
+                    inc = mk(ast.AugAssign(target=ast.Name(id=i, ctx=ast.Store()), op=ast.Add(), value=ast.Constant(value=1)))
+                    stmts, changed = [init, mk(ast.For(target=s.target.elts[1], iter=it.args[0], body=s.body + [inc], orelse=[]))] + rest, True
+                    continue
+        return stmts
 
     # ------------------------------------------------------------------ statements
     def assigned(self, stmts):
@@ -433,8 +679,12 @@ class Tr:
         """translate a statement list; `fin(env)` is the term for falling off its end"""
         if not stmts:
             return fin(env)
+        stmts = self.canon(stmts, env)
+        if not stmts:
+            return fin(env)
         s, rest = stmts[0], stmts[1:]
         env = dict(env)
+        self.cse = {}
 
         def go(env2):
             return self.B(rest, env2, ctx, fin)
@@ -495,6 +745,16 @@ class Tr:
                 else:
                     fail(f'item assignment on {dt!r}', s)
                 return self.seq(bk + bv, f'let {dn} := {new} in ') + go(env)
+            # a local that only renames another local (or a tuple of them) is that local
+            if isinstance(target, ast.Name) and isinstance(s.value, ast.Name) and s.value.id in env:
+                env[target.id] = env[s.value.id]
+                return go(env)
+            if (isinstance(target, ast.Tuple) and isinstance(s.value, ast.Tuple) and len(target.elts) == len(s.value.elts)
+                    and all(isinstance(e, ast.Name) for e in target.elts) and all(isinstance(e, ast.Name) and e.id in env for e in s.value.elts)):
+                vals = [env[e.id] for e in s.value.elts]
+                for e, val in zip(target.elts, vals):
+                    env[e.id] = val
+                return go(env)
             b, v, t = self.E(s.value, env)
             if isinstance(target, ast.Name):
                 nm = self.bind_name(env, target.id, t)
@@ -542,10 +802,11 @@ class Tr:
             if tt != 'bool':
                 # truthiness of a list
                 if lst(tt) is not None:
-                    vt = f'(match {vt} with [] => false | _ :: _ => true end)'
+                    vt = f'(py_nonempty {vt})'
                 else:
                     fail('condition is not a boolean', s)
-            if self.diverts(s.body) or self.diverts(s.orelse):
+            # an `if` that ends its block, or that leaves it early (guard clause), continues in both branches
+            if not rest or self.diverts(s.body) or self.diverts(s.orelse):
                 thn = self.B(s.body + rest, env, ctx, fin)
                 els = self.B(s.orelse + rest, env, ctx, fin)
                 return self.seq(bt, f'if {vt} then ({thn}) else ({els})')
@@ -628,20 +889,64 @@ def find_func(tree, name):
 
 
 def check_prologue(stmts):
-    """exec_proof starts by choosing which interpreter's stack it reads; both branches must read `.stack` of a StatefulInterpreter"""
-    def is_stack_lambda(s):
-        return (isinstance(s, ast.Assign) and len(s.targets) == 1 and isinstance(s.targets[0], ast.Name) and s.targets[0].id == 'stack'
-                and isinstance(s.value, ast.Lambda) and not s.value.args.args and isinstance(s.value.body, ast.Attribute)
-                and s.value.body.attr == 'stack')
-    if len(stmts) != 2:
-        fail('exec_proof prologue: expected the interpreter dispatch and the `interpreter` alias', stmts[0] if stmts else None)
-    d, a = stmts
-    ok = (isinstance(d, ast.If) and ast.unparse(d.test).replace(' ', '') == 'isinstance(interp,InterpreterTransformer)'
-          and any(is_stack_lambda(x) for x in d.body) and any(is_stack_lambda(x) for x in d.orelse)
-          and all(isinstance(x, (ast.Assign, ast.Assert)) for x in d.body + d.orelse))
-    ok = ok and isinstance(a, ast.Assign) and ast.unparse(a).replace(' ', '') == 'interpreter=lambda:interp'
-    if not ok:
-        fail('exec_proof prologue changed', d)
+    """exec_proof first fixes which object's `.stack` it reads: the stateful interpreter under `interp`.  Any arrangement of
+    assignments / asserts / a `stack` lambda or def is accepted as long as every `.stack` read is of a variable that is
+    asserted to be a StatefulInterpreter and is bound to `interp` or `interp.sub_interpreter`; `interpreter`, if present,
+    must be `lambda: interp`."""
+    def src_ok(e):
+        if isinstance(e, ast.Name):
+            return e.id == 'interp'
+        if isinstance(e, ast.Attribute):
+            return e.attr == 'sub_interpreter' and isinstance(e.value, ast.Name) and e.value.id == 'interp'
+        if isinstance(e, ast.IfExp):
+            return src_ok(e.body) and src_ok(e.orelse)
+        return False
+    bound, asserted, readers = {'interp'}, set(), []
+    saw_stack = False
+
+    def walk(block):
+        nonlocal saw_stack
+        for st in block:
+            if isinstance(st, ast.If):
+                walk(st.body)
+                walk(st.orelse)
+            elif isinstance(st, ast.Assert):
+                t = st.test
+                if (isinstance(t, ast.Call) and isinstance(t.func, ast.Name) and t.func.id == 'isinstance' and len(t.args) == 2
+                        and isinstance(t.args[0], ast.Name) and isinstance(t.args[1], ast.Name) and t.args[1].id == 'StatefulInterpreter'):
+                    asserted.add(t.args[0].id)
+                else:
+                    fail('exec_proof prologue: unexpected assert', st)
+            elif isinstance(st, ast.Assign) and len(st.targets) == 1 and isinstance(st.targets[0], ast.Name):
+                nm, v = st.targets[0].id, st.value
+                if nm == 'stack':
+                    if not (isinstance(v, ast.Lambda) and not v.args.args and isinstance(v.body, ast.Attribute) and v.body.attr == 'stack'
+                            and isinstance(v.body.value, ast.Name)):
+                        fail('exec_proof prologue: `stack` must read `<stateful interpreter>.stack`', st)
+                    readers.append(v.body.value.id)
+                    saw_stack = True
+                elif nm == 'interpreter':
+                    if ast.unparse(v).replace(' ', '') != 'lambda:interp':
+                        fail('exec_proof prologue: `interpreter` must be `lambda: interp`', st)
+                elif src_ok(v):
+                    bound.add(nm)
+                else:
+                    fail('exec_proof prologue: unexpected assignment', st)
+            elif isinstance(st, ast.FunctionDef) and st.name == 'stack':
+                body = [x for x in st.body if not (isinstance(x, ast.Expr) and isinstance(x.value, ast.Constant))]
+                if not (not st.args.args and len(body) == 1 and isinstance(body[0], ast.Return) and isinstance(body[0].value, ast.Attribute)
+                        and body[0].value.attr == 'stack' and isinstance(body[0].value.value, ast.Name)):
+                    fail('exec_proof prologue: `stack()` must return `<stateful interpreter>.stack`', st)
+                readers.append(body[0].value.value.id)
+                saw_stack = True
+            else:
+                fail('exec_proof prologue changed', st)
+    walk(stmts)
+    if not saw_stack:
+        fail('exec_proof prologue: no definition of `stack`', stmts[0] if stmts else None)
+    for r in readers:
+        if r not in bound or r not in asserted:
+            fail(f'exec_proof prologue: `.stack` is read from {r}, which is not a checked stateful interpreter')
 
 
 def generate(repo):
@@ -678,7 +983,9 @@ def generate(repo):
                   '  | None => raise\n  end.')
 
     # ---- translate.py: convert_to_implication (on demand), main's assembly, exec_proof
-    T.module_funcs['convert_to_implication'] = find_func(ttree, 'convert_to_implication')
+    for fn in ttree.body:
+        if isinstance(fn, ast.FunctionDef) and fn.name not in ('main', 'exec_proof'):
+            T.module_funcs[fn.name] = fn
     main = find_func(ttree, 'main')
     idx = {}
     for i, s in enumerate(main.body):
@@ -696,7 +1003,7 @@ def generate(repo):
     params = [a.arg for a in ep.args.args]
     if params != ['converter', 'target', 'proofexp', 'interp']:
         fail('exec_proof signature changed', ep)
-    first_def = next((i for i, s in enumerate(ep.body) if isinstance(s, ast.FunctionDef)), None)
+    first_def = next((i for i, s in enumerate(ep.body) if isinstance(s, ast.FunctionDef) and s.name != 'stack'), None)
     if first_def is None:
         fail('exec_proof: nested helpers not found', ep)
     check_prologue(ep.body[:first_def])
